@@ -96,4 +96,33 @@ def distSqOutline (px py : Rat) (poly : List P2) : Option Rat :=
       | none => some d
       | some m => some (rmin m d)) none
 
+/-- how firmly the exact test decides, for comparing with an f32 computation: a hit / a miss with margins, or too close
+to call (the crossing is within `tEps` of the ray origin — an obstacle in the window's own plane —, within `dEps` of the
+obstacle's outline, or the ray is nearly parallel to the obstacle) -/
+inductive Firm where
+  | hit | miss | unsure
+  deriving DecidableEq, Repr
+
+def firmRayPolygon (inv : Pose) (poly : List P2) (r : RayQ) (tEps dEps : Rat) : Firm :=
+  match poly with
+  | [] => .miss
+  | _ :: _ =>
+    let o := inv.app r.o
+    let d := inv.rot r.d
+    let nz := polyNormalZ poly
+    let denom := nz * d.z
+    if rabs denom < RAY_EPS / 2 then .miss
+    else if rabs denom < RAY_EPS * 2 then .unsure
+    else
+      let t := nz * (0 - o.z) / denom
+      if t < -tEps then .miss
+      else
+        let px := o.x + t * d.x
+        let py := o.y + t * d.y
+        let near := match distSqOutline px py poly with | some q => decide (q < dEps * dEps) | none => false
+        if near then .unsure
+        else match pointInPoly px py poly with
+          | some true => if t ≤ tEps then .unsure else .hit
+          | _ => .miss
+
 end Cte
